@@ -154,3 +154,19 @@ claim("C31", "model_checking", "TLA+ reference semantics of WebAssembly integer 
       "assembler and calls every case on the embedded wazero in compiler and interpreter mode and on V8 (node). A deviation from the specification that V8 does not share is a violation.",
       "Trusted: TLC, BV.tla, node/V8 as the independent engine for attribution only. Integer subset; floats, memory and control instructions are not in this check's case space.",
       "DESIGN.md section 4 (WebAssembly hub)")
+
+claim("C03", "model_checking", "TLA+ reference semantics (WasmNum.tla cases from TLC) + execution of every case in the C program generated by wat2c, compiled with clang -O0 and -O2",
+      "The hub's module (one exported function per numeric operator, per store/load combination with offsets, per bounds probe, per constant immediate) is translated with "
+      "wat2c, compiled with clang at -O0 and -O2 and every TLC case is executed; the value, or abnormal termination where a trap is specified, must match the specification. "
+      "Cases that kill the process are isolated by restarting after them.",
+      "Trusted: TLC, BV.tla, clang. Integer subset; float operators, control-flow skeletons and exported-memory effects beyond the loaded value are not in the case space. "
+      "Open known finding: wat2c emits no bounds checks.",
+      "DESIGN.md section 4 (WebAssembly hub)")
+claim("C04", "model_checking", "TLA+ reference semantics + index-space model (TLC cases) executed from the binary Wa's assembler produced, on V8 and the embedded engine; validation on V8; name section decoded and compared with the index rule",
+      "Every hub case (numeric and memory operators, i32/i64 constants at the signed-LEB128 group edges) and 120 index-space modules (block types, calls, locals, globals "
+      "behind 0..200 leading entries, every count across 64 and 128, with separately declared types) are assembled by watutil.Wat2Wasm; each binary must validate on V8 and "
+      "compute the TLC-specified result there (a deviation shared by both engines is the assembler's); the debug name section of every binary is decoded and must assign each "
+      "function and local index the name written in the text (parameters first, then locals), strictly increasing.",
+      "Trusted: TLC, V8's validator and engine, the name-section decoder of the driver. 'Equal to WABT's output' is not decidable here (WABT absent): replaced by validity + specified "
+      "behaviour + name-section rule. Data/elem/start/table sections are exercised by C06's modules only.",
+      "DESIGN.md section 4 (WebAssembly hub)")
